@@ -174,6 +174,49 @@ def getDeformation (name : String) (loc : Coord) : Color.DeformResult :=
     | _ => .valueError
   else .valueError
 
+/-! ### the independent family of the rank clause (`Properties/C01HollowRhombicCode.lean`) -/
+
+/-- signs of the three legs of the triangle `(a, x, y, z)` (rows of `delta_axis`) -/
+def rsX (a : Int) : Int := if a = 0 ∨ a = 2 then 1 else -1
+def rsY (a : Int) : Int := if a = 0 ∨ a = 3 then 1 else -1
+def rsZ (a x y z : Int) : Int := if ((a = 0 ∨ a = 1) ↔ (x + y + z) % 4 = 0) then 1 else -1
+
+/-- at a vertex of the lattice the triangle `(a, x, y, z)` is listed: neither the vertex nor one of
+    its three legs lies in the hole, and its y leg does not point out of the lattice -/
+def presB (Lx Ly Lz : Nat) (a x y z : Int) : Bool :=
+  !inHole Lx Ly Lz x y z && !inHole Lx Ly Lz (x + rsX a) y z && !inHole Lx Ly Lz x (y + rsY a) z &&
+  !inHole Lx Ly Lz x y (z + rsZ a x y z) && decide (1 ≤ y + rsY a) &&
+  decide (y + rsY a ≤ 2 * (Ly : Int) - 3)
+
+/-- the selected triangles: all of axis 3 and 2; of axis 1 those at a vertex where the triangle of
+    axis 3 or of axis 2 is not listed; of axis 0 those of the last column `x = 2Lx−2`, the upper one
+    (`(x+y+z) % 4 = 2`, `z ≥ 2`) of the two that share a z edge, the lower one where the upper one is
+    not listed, and the lower ones `(0, 2, 2, z)`, `z % 4 = 0`, `8 ≤ z ≤ 2Lz−6` along the edge
+    `x = y = 3` of a hole with `Lx, Ly ≥ 4` or `Lx = 3`, `Ly ≥ 5`; for `Lz = 4` (the hole is the slab `z = 3`)
+    the lower ones `(0, 2, y, 2)` under the hole edge `(3, ·, 3)` when `Lx = 4`, `Ly ≥ 5`, and the lower ones
+    `(0, x, 2, 2)` under the hole edge `(·, 3, 3)` when `Ly = 5`, `Lx ≥ 5` -/
+def selTri (Lx Ly Lz : Nat) : Coord → Bool
+  | [a, x, y, z] =>
+    if a = 3 ∨ a = 2 then true
+    else if a = 1 then !presB Lx Ly Lz 3 x y z || !presB Lx Ly Lz 2 x y z
+    else
+      decide (x = 2 * (Lx : Int) - 2) ||
+      (decide ((x + y + z) % 4 = 2) && decide (2 ≤ z)) ||
+      (decide ((x + y + z) % 4 = 0) && decide (z < 2 * (Lz : Int) - 2) &&
+        !presB Lx Ly Lz 0 x y (z + 2)) ||
+      (decide (x = 2) && decide (y = 2) && decide (z % 4 = 0) && decide (8 ≤ z) &&
+        decide (z ≤ 2 * (Lz : Int) - 6) &&
+        ((decide (4 ≤ Lx) && decide (4 ≤ Ly)) || (decide (Lx = 3) && decide (5 ≤ Ly)))) ||
+      (decide (x = 2) && decide (4 ≤ y) && decide (y ≤ 2 * (Ly : Int) - 6) && decide (z = 2) &&
+        decide ((x + y + z) % 4 = 0) && decide (Lz = 4) && decide (Lx = 4) && decide (5 ≤ Ly)) ||
+      (decide (4 ≤ x) && decide (x ≤ 2 * (Lx : Int) - 4) && decide (y = 2) && decide (z = 2) &&
+        decide ((x + y + z) % 4 = 0) && decide (Lz = 4) && decide (Ly = 5) && decide (5 ≤ Lx))
+  | _ => false
+
+/-- the family of the rank clause: all cubes and the selected triangles -/
+def rankFamily (Lx Ly Lz : Nat) : List Coord :=
+  cubes Lx Ly Lz ++ (triangles Lx Ly Lz).filter (selTri Lx Ly Lz)
+
 def lattice (Lx Ly Lz : Nat) : Lattice where
   qubits := qubits Lx Ly Lz
   stabs := stabs Lx Ly Lz
